@@ -157,7 +157,8 @@ def run(ctx, prop, PROPS, LEVEL):
                    "hang, no early return, no excess (monitors only).  C04 also runs the scratch-built pdsh -R exec -u 1 "
                    "with commands that count their live siblings (real part).  Distinct = distinct projected event "
                    "trace; non-trivial = N>=2 and the dispatcher waited at least once"}
-    dist = {"strategy": {}, "yield": {}, "with_spurious": 0, "N": {}, "dfs": [], "status": {}, "rejects": 0}
+    dist = {"strategy": {}, "yield": {}, "with_spurious": 0, "N": {}, "dfs": [], "status": {}, "rejects": 0,
+            "signalling_discipline_observed": {}}
     cov["distribution"] = dist
     variant = None
     if exe_san and exe:
@@ -209,6 +210,9 @@ def explore_all(ctx, prop, exe_san, exe, variant, cov, dist):
             m = r["M"] or {}
             st = m.get("status", "crash")
             dist["status"][st] = dist["status"].get(st, 0) + 1
+            for call, place in sched.discipline(r):
+                k = "%s %s the critical section" % (call, place)
+                dist["signalling_discipline_observed"][k] = dist["signalling_discipline_observed"].get(k, 0) + 1
             # connections that were handed descriptor number 0, 1 or 2 (pdsh started with stdio closed)
             dist["connections_on_low_descriptors"] = dist.get("connections_on_low_descriptors", 0) + \
                 sum(1 for _, ev in r["steps"] if len(ev) > 1 and ev[1] == "connectEnd" and ev[-1] == "lowfd") + \
